@@ -58,6 +58,7 @@ type tvWho struct {
 	N      int  `json:"n"`
 	Lower  bool `json:"lower"` // spelling used by the probe
 	Origin int  `json:"origin"`
+	Func   bool `json:"func,omitempty"` // a pool function called through a wrapper defined on the base VM
 }
 
 type tvCfg struct {
@@ -118,6 +119,22 @@ func tempvmHandler(req *sb.Req) *sb.Rep {
 		return temps[i]
 	}
 	out := tvOut{}
+	// factory functions defined on the base VM before anything else: their bodies (one AST shared by every VM that
+	// calls them) instantiate a pool class, which each request may define for itself
+	{
+		var fb strings.Builder
+		fb.WriteString("<?php\n")
+		for n := 0; n < cfg.Names; n++ {
+			fmt.Fprintf(&fb, "function mkc%d() { $o = new %s(); return $o->who(); }\n", n, tvName("class", n))
+			fmt.Fprintf(&fb, "function viaf%d() { return %s(); }\n", n, tvName("func", n))
+		}
+		p := e.P.Clone()
+		if prog, acl := p.ParseString(fb.String(), "/virtual/factories.php"); acl == nil {
+			prog.GetValue(base.CreateContext(p.GetVariables()))
+		} else {
+			out.Errors = append(out.Errors, "factories rejected: "+clip(acl.AsString(), 160))
+		}
+	}
 	seq := 0
 	src := func(kind string, n, vm int, lower bool) string {
 		seq++
@@ -183,6 +200,9 @@ func tempvmHandler(req *sb.Req) *sb.Rep {
 			fmt.Fprintf(&sbd, "try { $o = new %s(); __obs('who:%d', $o->who()); } catch (Throwable $e) { }\n", tvName("class", n), n)
 			fmt.Fprintf(&sbd, "try { $o = new %s(); __obs('wholc:%d', $o->who()); } catch (Throwable $e) { }\n", strings.ToLower(tvName("class", n)), n)
 			fmt.Fprintf(&sbd, "try { __obs('call:%d', %s()); } catch (Throwable $e) { __obs('!call:%d', 1); }\n", n, tvName("func", n), n)
+			// the same instantiation made by the base VM's factory function on behalf of this VM
+			fmt.Fprintf(&sbd, "try { __obs('whofn:%d', mkc%d()); } catch (Throwable $e) { }\n", n, n)
+			fmt.Fprintf(&sbd, "try { __obs('fwho:%d', viaf%d()); } catch (Throwable $e) { }\n", n, n)
 		}
 		res := map[string]bool{}
 		func() {
@@ -217,11 +237,17 @@ func tempvmHandler(req *sb.Req) *sb.Rep {
 					res["new:class:"+k[4:]] = true
 				case strings.HasPrefix(k, "!new:"):
 					res["new:class:"+k[5:]] = false
-				case strings.HasPrefix(k, "who:"), strings.HasPrefix(k, "wholc:"):
+				case strings.HasPrefix(k, "who:"), strings.HasPrefix(k, "wholc:"), strings.HasPrefix(k, "whofn:"):
 					// s:"c<n>@<vm>#<seq>"
 					var n, org, sq int
 					if _, err := fmt.Sscanf(strings.Trim(strings.TrimPrefix(v, "s:"), "\""), "c%d@%d#%d", &n, &org, &sq); err == nil {
 						out.Who = append(out.Who, tvWho{Step: len(out.Steps), VM: vmIdx, N: n, Lower: strings.HasPrefix(k, "wholc:"), Origin: org})
+					}
+				case strings.HasPrefix(k, "fwho:"):
+					// s:"f<n>@<vm>#<seq>": which definition of the pool function the base VM's wrapper called
+					var n, org, sq int
+					if _, err := fmt.Sscanf(strings.Trim(strings.TrimPrefix(v, "s:"), "\""), "f%d@%d#%d", &n, &org, &sq); err == nil {
+						out.Who = append(out.Who, tvWho{Step: len(out.Steps), VM: vmIdx, N: n, Origin: org, Func: true})
 					}
 				case strings.HasPrefix(k, "call:"):
 					res["call:func:"+k[5:]] = true
@@ -412,6 +438,9 @@ func c12Judge(pool *sb.Pool, rec *sb.Rec, cfg tvCfg) *failure {
 			sp := "exact"
 			if w.Lower {
 				sp = "lower-case"
+			}
+			if w.Func {
+				return &failure{Key: fmt.Sprintf("cell:foreign-definition:func:%s-runs-other-temp", where), Detail: fmt.Sprintf("at step %d a script on VM %d called function %d through a wrapper defined on the base VM and ran the definition made on temporary VM %d", w.Step, w.VM, w.N, w.Origin), Case: cs}
 			}
 			return &failure{Key: fmt.Sprintf("cell:foreign-definition:class:%s-runs-other-temp", where), Detail: fmt.Sprintf("at step %d a script on VM %d instantiated class %d (%s spelling) and ran the definition made on temporary VM %d", w.Step, w.VM, w.N, sp, w.Origin), Case: cs}
 		}
